@@ -102,9 +102,14 @@ def run(ctx):
                  "(index based, not positional)")
     run_cases(ctx, R3, lookup_cases(), aspects=("needs",))
     ctx.require_min(R3, 12)
+    from rules import _lints
+    _lints.both_switch_ends(ctx, "FUSE-BOTH-ENDS")
+    _lints.dup_sweep(ctx, "DUP-OPERAND", ["pandapower.build_bus", "pandapower.pd2ppc", "pandapower.build_branch", "pandapower.build_gen",
+                                         "pandapower.pypower.makeYbus"])
 
 
 def variants(repo):
+    _bbu = "pandapower/build_bus.py"
     pd = "pandapower/pd2ppc.py"
     bb = "pandapower/build_branch.py"
     rb = "pandapower/results_branch.py"
